@@ -390,7 +390,7 @@ func main() {
 			if t == "thorough" {
 				return 1500
 			}
-			return 300
+			return 900
 		},
 	})
 }
